@@ -1087,6 +1087,102 @@ def runTmpl (g : GEnv) : Nat → Registry.Tmpl → Run
   | 0, _, ctx, st => ⟨.fuelOut, ctx, st⟩
   | fuel + 1, t, ctx, st => execBody g (escapeOf t) (runTmpl g fuel) t.body ctx st
 
+/-! ### positions: what `errFromNode` slices the source with
+
+  The top-level recover handler (`errRecover` → `errFromNode` → `Registry.LineNumber`) evaluates
+  `src[:node.Position()]` for the node the ENTRY template's state was at, where `src` is the source
+  registered under the entry template's name.  If that position exceeded `len(src)` the slice expression
+  would panic inside the deferred handler and the panic would escape `Execute`.  `Registry.add` rejects
+  duplicate template names, so `src` is the text of the template's own file and every position the
+  parser assigned lies inside it.  The model keeps the obligation explicit: `posOk t` says every node
+  of the template lies within its source, and `execute` turns an error into `panic` when it does not
+  hold (a conservative over-approximation: Go panics only if the one node at fault is out of range). -/
+
+mutual
+def maxPosE : Expr → Nat
+  | .null p | .bool p _ | .int p _ | .float p _ | .str p _ _ | .global p _ => p
+  | .func p _ args => max p (maxPosEs args)
+  | .list p items => max p (maxPosEs items)
+  | .map p items => max p (maxPosM items)
+  | .dataRef p _ acc => max p (maxPosA acc)
+  | .not p a => max p (maxPosE a)
+  | .neg p a => max p (maxPosE a)
+  | .bin _ p a b => max p (max (maxPosE a) (maxPosE b))
+  | .tern p c a b => max p (max (maxPosE c) (max (maxPosE a) (maxPosE b)))
+def maxPosEs : ExprList → Nat
+  | .nil => 0
+  | .cons e r => max (maxPosE e) (maxPosEs r)
+def maxPosM : MapItems → Nat
+  | .nil => 0
+  | .cons _ e r => max (maxPosE e) (maxPosM r)
+def maxPosA : AccessList → Nat
+  | .nil => 0
+  | .cons (.key p _ _) r => max p (maxPosA r)
+  | .cons (.index p _ _) r => max p (maxPosA r)
+  | .cons (.expr p _ e) r => max p (max (maxPosE e) (maxPosA r))
+end
+
+def maxPosOpt : Option Expr → Nat
+  | none => 0
+  | some e => maxPosE e
+
+def maxPosList : List Expr → Nat
+  | [] => 0
+  | e :: r => max (maxPosE e) (maxPosList r)
+
+def maxPosDirs : List Directive → Nat
+  | [] => 0
+  | d :: r => max d.pos (max (maxPosList d.args) (maxPosDirs r))
+
+mutual
+def maxPosCmd : Cmd → Nat
+  | .rawText p _ => p
+  | .print p a dirs => max p (max (maxPosE a) (maxPosDirs dirs))
+  | .msg p _ _ _ bp body => max p (max bp (maxPosParts body))
+  | .css p e _ => max p (maxPosOpt e)
+  | .debugger p => p
+  | .log p b => max p (maxPosBlock b)
+  | .ifc p conds => max p (maxPosConds conds)
+  | .forc p _ l b ie => max p (max (maxPosE l) (max (maxPosBlock b) (match ie with | some b' => maxPosBlock b' | none => 0)))
+  | .switch p v cases => max p (max (maxPosE v) (maxPosCases cases))
+  | .call p _ _ d ps => max p (max (maxPosOpt d) (maxPosParams ps))
+  | .letValue p _ e => max p (maxPosE e)
+  | .letContent p _ b => max p (maxPosBlock b)
+  | .headerParam p _ _ tp _ d => max p (max tp (maxPosOpt d))
+  | .namespace p _ _ => p
+  | .template p _ b _ _ => max p (maxPosBlock b)
+  | .soyDoc p _ => p
+def maxPosBlock : Block → Nat
+  | .mk p cmds => max p (maxPosCmds cmds)
+def maxPosCmds : CmdList → Nat
+  | .nil => 0
+  | .cons c r => max (maxPosCmd c) (maxPosCmds r)
+def maxPosConds : CondList → Nat
+  | .nil => 0
+  | .cons p c b r => max p (max (maxPosOpt c) (max (maxPosBlock b) (maxPosConds r)))
+def maxPosCases : CaseList → Nat
+  | .nil => 0
+  | .cons p vs b r => max p (max (maxPosList vs) (max (maxPosBlock b) (maxPosCases r)))
+def maxPosParams : ParamList → Nat
+  | .nil => 0
+  | .value p _ e r => max p (max (maxPosE e) (maxPosParams r))
+  | .content p _ b r => max p (max (maxPosBlock b) (maxPosParams r))
+def maxPosParts : MsgParts → Nat
+  | .nil => 0
+  | .text p _ r => max p (maxPosParts r)
+  | .ph p _ b r => max p (max (maxPosPh b) (maxPosParts r))
+  | .plural p _ v cases dp d r => max p (max (maxPosE v) (max (maxPosPl cases) (max dp (max (maxPosParts d) (maxPosParts r)))))
+def maxPosPh : MsgPhBody → Nat
+  | .htmlTag p _ => p
+  | .cmd c => maxPosCmd c
+def maxPosPl : PluralCases → Nat
+  | .nil => 0
+  | .cons p _ bp b r => max p (max bp (max (maxPosParts b) (maxPosPl r)))
+end
+
+/-- every node of the template lies within the source registered under its name -/
+def posOk (t : Registry.Tmpl) : Bool := max t.pos (maxPosBlock t.body) ≤ t.text.length
+
 /-! ## Entry points -/
 
 structure Outcome where
@@ -1118,7 +1214,11 @@ def execute (g : GEnv) (name : Bytes) (data : Frame) (fuel : Nat) : Outcome :=
     | none => { cls := .err, chunks := [], data := data, foreign := 0, next := 0 }
     | some (ctx, st2) =>
       let r := runTmpl g fuel t ctx st2
-      { cls := r.cls, chunks := r.st.out.reverse, data := heapGet r.st.heap 0, foreign := r.st.foreign, next := r.st.next }
+      -- errRecover: the handler slices the entry template's source at the failing node's position
+      let cls := match r.cls with
+        | .err => if posOk t then Cls.err else Cls.panic
+        | c => c
+      { cls := cls, chunks := r.st.out.reverse, data := heapGet r.st.heap 0, foreign := r.st.foreign, next := r.st.next }
 
 /-- soyhtml.EvalExpr on an expression node: no template, no scope, no $ij, output discarded.
     (`errFromNode` has the nil-template guard, so the error path cannot panic.) -/
